@@ -299,6 +299,32 @@ var outsideScenarios = []directed{
 	{"known0:cairo0-declaration-of-unknown-class-without-definition", func(ns bool) *Scenario {
 		return sc1([]*lib.BlockSpec{D().Spec("0.13.2"), declareV0(D().Spec("0.13.2"), 0xd00a, false)}, 1)
 	}},
+	// blocks that State.Update itself must refuse (the premise `store = ok` of the theorems, tied on its error side)
+	{"refused:deploy-at-an-existing-address", func(ns bool) *Scenario {
+		return sc1(specs("0.14.0", D().Deploy(0x104, 0xc000), D().Deploy(0x104, 0xc001)), 1)
+	}},
+	{"refused:nonce-of-a-contract-that-does-not-exist", func(ns bool) *Scenario {
+		return sc1(specs("0.14.0", D().Deploy(0x104, 0xc000), D().Nonce(0x105, 1)), 1)
+	}},
+	{"refused:class-replaced-on-a-contract-that-does-not-exist", func(ns bool) *Scenario {
+		return sc1(specs("0.14.0", D().Deploy(0x104, 0xc000), D().Replace(0x105, 0xc001)), 1)
+	}},
+	{"refused:storage-of-a-contract-that-does-not-exist", func(ns bool) *Scenario {
+		return sc1(specs("0.14.0", D().Deploy(0x104, 0xc000), D().Set(0x105, 1, 3)), 1)
+	}},
+	{"refused:migration-of-an-unknown-class", func(ns bool) *Scenario {
+		h, _, _, c2 := mySierra(5)
+		m := D().Spec("0.14.1")
+		m.Diff.MigratedClasses[felt.SierraClassHash(h)] = felt.CasmClassHash(c2)
+		return sc1([]*lib.BlockSpec{D().Spec("0.14.1"), m}, 1)
+	}},
+	{"refused:second-migration-of-a-class", func(ns bool) *Scenario {
+		h, _, _, c2 := mySierra(6)
+		m1, m2 := D().Spec("0.14.1"), D().Spec("0.14.1")
+		m1.Diff.MigratedClasses[felt.SierraClassHash(h)] = felt.CasmClassHash(c2)
+		m2.Diff.MigratedClasses[felt.SierraClassHash(h)] = felt.CasmClassHash(c2)
+		return sc1([]*lib.BlockSpec{declareSierra(D().Spec("0.14.0"), 6, false), m1, m2}, 1)
+	}},
 	{"casmFresh+migrate:declare-and-migrate-in-one-block", func(ns bool) *Scenario {
 		h, _, _, c2 := mySierra(4)
 		s := declareSierra(D().Spec("0.14.1"), 4, true)
